@@ -1992,9 +1992,30 @@ impl<'a> TokenBasedLuaGenerator<'a> {
     fn needs_space(&self, next_character: char) -> bool {
         if let Some(last) = self.output.chars().last() {
             utils::should_break_with_space(last, next_character)
+                || (last == '.'
+                    && (next_character.is_ascii_alphabetic() || next_character == '_')
+                    && self.ends_with_number_literal())
         } else {
             false
         }
+    }
+
+    /// Returns true when the output ends with a number written with a trailing period
+    /// (like `5.`): a word directly after it would be read as part of a malformed number.
+    fn ends_with_number_literal(&self) -> bool {
+        self.output
+            .strip_suffix('.')
+            .map(|before| {
+                let word_start = before
+                    .rfind(|c: char| !(c.is_ascii_alphanumeric() || c == '_'))
+                    .map(|index| index + 1)
+                    .unwrap_or(0);
+                before[word_start..]
+                    .chars()
+                    .next()
+                    .is_some_and(|c| c.is_ascii_digit())
+            })
+            .unwrap_or(false)
     }
 
     #[inline]
